@@ -74,12 +74,24 @@ class C07(Prop):
             # a past operator above the look-ahead: after pastify() it starts when its operand does
             o = rng.choice(['historically', 'once', 'historically', 'once', 'prev', 's_prev'])
             f = lang.N(o, f) if (o in ('prev', 's_prev') or rng.random() < 0.6) else lang.N(o, f, ivl=(0, rng.randint(1, 3)))
+        wide = kind in ('dt_off', 'dt_on') and rng.random() < 0.04
+        if wide:
+            # windows of 33..130 samples on traces of 100..170 samples
+            c.wide, c.max_depth, c.unbounded_future = 0.8, rng.choice([1, 2]), False
+            for _ in range(40):
+                f = lang.gen_formula(rng, c)
+                if ref_bool.boolean_typed(f) and any(g[1] is not None and g[1][1] - g[1][0] >= 32 for g in lang.walk(f)) \
+                        and (not simple or ref_bool.var_vs_const_only(f)):
+                    break
         names = lang.variables(f) or ['x']
         case = {'formula': f, 'kind': kind, 'pseed': rng.randrange(1 << 30)}
         if rng.random() < 0.1:
             case['useed'] = rng.randrange(1 << 30)
         if kind.startswith('dt'):
             case['data'] = lang.gen_trace(rng, names, rng.randint(1, 16))
+            if wide:
+                n7 = rng.randint(100, 170)
+                case['data'] = dict((k, lang.gen_values(rng, n7, rng.choice(['tiny', 'small']))) for k in names)
             if kind == 'dt_on_pastified':
                 case['data'] = lang.gen_trace(rng, names, rng.randint(1, 14) + min(lang.horizon(f), 8))
             if kind in ('dt_on', 'dt_on_pastified') and rng.random() < (0.3 if kind == 'dt_on' else 0.6):
